@@ -13,6 +13,7 @@ TRUSTED = ["Vec growth / copyless::VecHelper (push = snoc on a list)",
            "harness/src/fam_bintape.rs printing of BinaryToken and its structural checker"]
 ASSUMPTIONS = ["the model parameter fx=false is the code as it is; fx=true (I64 excluded from the three id-class tests) is the repaired parser the unconditional theorem is about"]
 
+PROFILES = ["release", "debug"]
 KEY_B = "B-i64-key-fastpath"
 
 # ------------------------------------------------------------------ token encodings
@@ -364,6 +365,12 @@ def gen_streams(ctx, judge, sizes):
             cases.append("bt.all\t" + hexs(bytes(rng.randrange(256) for _ in range(n))))
     impl, model = ctx.correspond("random_bytes", cases, nontrivial=nontrivial)
     judge.check(cases, impl, model, "random_bytes")
+    # 6b. the same kind of input against the debug build (overflow checks, debug_assert! in set_parent_to_object / mixed_insert)
+    if "debug" in PROFILES and not judge.wf_only:
+        cases = ["bt.all\t" + hexs(enc_seq(random_tokens(rng, rng.choice([3, 6, 9, 14, 25])))) for _ in range(max(2000, nrand // 5))]
+        cases += ["bt.all\t" + hexs(b) for b, _ in docs[:500]]
+        impl, model = ctx.correspond("debug_profile", cases, nontrivial=nontrivial, profile="debug")
+        judge.check(cases, impl, model, "debug_profile")
     # 7. parse into a previously used tape
     pool = [b for b, _ in docs[:300]] + [enc_seq(random_tokens(rng, 8)) for _ in range(200)]
     cases = ["bt.reuse\t%s\t%s" % (hexs(rng.choice(pool)), hexs(rng.choice(pool))) for _ in range(max(500, ndocs // 2))]
